@@ -27,7 +27,9 @@ fn main() {
     }));
     let args = util::Args::parse(&argv[2..]);
 EOT
-echo "    $D::record(&args);"
+echo "    // deep S-expressions recurse deeply: run on a thread with a large stack"
+echo "    let h = std::thread::Builder::new().stack_size(2 << 30).spawn(move || $D::record(&args)).expect(\"spawn\");"
+echo "    if h.join().is_err() { std::process::exit(101); }"
 echo "}"
 } > $F
 echo created $F
